@@ -88,7 +88,10 @@ def oracle(ctx):
             return rnd.choice(['" ' + v + ' "', '"' + v + '"', v + '\\t', '\\x20' + v, '"\\t' + v + '"', "' " + v + "'", v + '\\s'])
         deco = [spell(v) for v in vals]
         cases.append((vals, deco))
-    ops = [f'convert\t0\t0\t{hx("/q/c.container")}\t{hx(container(d))}' for _, d in cases]
+    # the options of the container are its own whatever company it keeps: a third of the cases are members of a pod of the same run
+    in_pod = [rnd.random() < 0.33 for _ in cases]
+    ops = [(f'convert\t0\t0\t{hx("/q/c.container")}\t{hx(container(d))}' if not pod else
+            f'convert\t0\t0\t{hx("/q/c.container")}\t{hx(container(d) + "Pod=p.pod" + chr(10))}\t{hx("/q/p.pod")}\t{hx("[Pod]" + chr(10))}') for (_, d), pod in zip(cases, in_pod)]
     io = ctx.impl(ops)
     for (vals, deco), op, a in zip(cases, ops, io):
         res.oracle_evals += 1
